@@ -226,7 +226,7 @@ PROPS["C06"] = dict(
                   dict(harness="any", build="plain", runs=600000, offset=1060000, enumerate=True, wall_cap=2400),
                   dict(harness="any", build="plain", runs=200, offset=1660000, valgrind=True, workers=8, wall_cap=1200)],
     ),
-    rule=("a case is one execution of a seeded history (1-15 operations) over three xtl::any objects and fifteen payload types on both sides of the in-place/heap threshold "
+    rule=("a case is one execution of a seeded history (1-15 operations) over three xtl::any objects and seventeen payload types on both sides of the in-place/heap threshold "
           "(int, two small nothrow-move tracked types, shared_ptr and a reference-like type whose assignment writes through to caller cells in place; a large, a throwing-move and an over-aligned tracked type, std::string, a type with an extra T(T&) copy constructor, a heap-sized reference-like type, a tree node with an initializer_list constructor and a type whose memberwise assignment can throw half-way on the heap; a plain pointer in place, against which array-typed casts must fail). "
           "Value assignment also takes the any's own content as argument (a = any_cast<T&>(a), also moved). The caller cells behind reference-like payloads must never change (the container may only construct and destroy payloads) and a copy of an any must never run T(T&). "
           "A fault is 'the k-th fault point of this step fails', a fault point being a payload copy/move (throws) or an allocation by xtl::any (operator new is replaced; bad_alloc). "
@@ -383,7 +383,7 @@ MANIFEST_TEXT = {
         technique="deterministic simulation with fault injection: injected throws at enumerated fault points, lifetime registry, reference model of std::variant semantics",
     ),
     "C06": dict(
-        text="fault enumeration inside seeded histories over three xtl::any objects and fifteen payload types on both sides of the in-place/heap threshold (among them a reference-like type whose assignment writes through to caller cells, a type with an extra T(T&) constructor, an over-aligned type, and a node that itself holds an any and is assigned from inside its own content): each sampled history runs fault-free and then once per (step, k) with the k-th payload copy/move throwing or the k-th allocation failing; a lifetime registry checks construct-once/destroy-once/no-use-after-destruction, has_value/type/any_cast for every type must agree with the model after every step, a failed copy or value assignment must leave the target's previous value, copies must be independent, casts succeed only for exactly the stored type",
+        text="fault enumeration inside seeded histories over three xtl::any objects and seventeen payload types on both sides of the in-place/heap threshold (among them a reference-like type whose assignment writes through to caller cells, a type with an extra T(T&) constructor, an over-aligned type, and a node that itself holds an any and is assigned from inside its own content): each sampled history runs fault-free and then once per (step, k) with the k-th payload copy/move throwing or the k-th allocation failing; a lifetime registry checks construct-once/destroy-once/no-use-after-destruction, has_value/type/any_cast for every type must agree with the model after every step, a failed copy or value assignment must leave the target's previous value, copies must be independent, casts succeed only for exactly the stored type",
         design_ref="4.5",
         note="histories are sampled, fault positions inside each sampled history are enumerated; global operator new is replaced in the harness binary",
         technique="deterministic simulation with fault injection: injected throws and allocation failures at enumerated fault points, lifetime registry, reference model",
